@@ -143,6 +143,7 @@ def defs(ob, v, extra=()):
     ds = dict(ob.defines); ds.update(v)
     out = [f"-D{k}={val}" for k, val in ds.items()]
     out.append('-DMODEL_IE' if ob.model == 'ie' else '-DMODEL_BIT')
+    if ob.wrap_files: out.append('-DWRAP_FILES')
     out += list(extra)
     return out
 
@@ -167,15 +168,24 @@ def classify(rc, out):
     if 'std::bad_alloc' in out or 'Out of memory' in out or rc in (-9, 137, -6, 134): return 'oom'
     return 'error'
 
-def extract_inputs(out):
-    """last assignment to each nd_log[i] and nd_n in the trace"""
+def extract_inputs(out, which=0):
+    """inputs (nd_log) of ONE counterexample trace: cbmc prints a trace per failed property and they differ, so the assignments
+    must not be mixed. Traces of harness assertions (main.assertion.*) come first; `which` selects among them."""
+    parts = re.split(r'^Trace for (\S+):\s*$', out, flags=re.M)
+    traces = [(parts[i], parts[i + 1]) for i in range(1, len(parts) - 1, 2)]
+    if not traces: traces = [('', out)]
+    traces.sort(key=lambda t: 0 if t[0].startswith('main.assertion') else 1)
+    name, text = traces[min(which, len(traces) - 1)]
     vals = {}; n = None
-    for m in re.finditer(r'^\s*nd_log\[(\d+)l?\]=(\d+)', out, re.M):
+    for m in re.finditer(r'^\s*nd_log\[(\d+)l?\]=(\d+)', text, re.M):
         vals[int(m.group(1))] = int(m.group(2))
-    for m in re.finditer(r'^\s*nd_n=(-?\d+)', out, re.M):
+    for m in re.finditer(r'^\s*nd_n=(-?\d+)', text, re.M):
         n = int(m.group(1))
     if n is None: n = (max(vals) + 1) if vals else 0
     return [vals.get(i, 0) for i in range(n)]
+
+def count_traces(out):
+    return max(1, len(re.findall(r'^Trace for (\S+):\s*$', out, flags=re.M)))
 
 def native_build(run, ob, v, d, real, extra=()):
     exe = os.path.join(d, 'native_real' if real else 'native_tr')
@@ -308,7 +318,7 @@ def process(run, ob, v, findings):
         out = open(q['log']).read()
         unwinding_only = q['failures'] and all('unwinding assertion' in f for f in q['failures'])
         inputs = extract_inputs(out)
-        rec['counterexample'] = dict(inputs=inputs, failures=q['failures'])
+        rec['counterexample'] = dict(inputs=inputs, failures=q['failures']); rec['cex_log'] = q['log']
         rec['status'] = 'counterexample'
         rec['unwinding_only'] = bool(unwinding_only)
     else:
@@ -403,6 +413,12 @@ def main():
                 r['status'] = 'inconclusive'; r['notes'].append('only unwinding assertions failed: loop bound too small for this tree'); inconclusive.append(r)
                 print(f"[{a.prop}] {r['obligation']}: unwinding bound exceeded -> inconclusive: {r['counterexample']['failures'][:3]}"); continue
             ok, text = replay(run, o, r)
+            if not ok and r.get('cex_log'):
+                log = open(r['cex_log']).read()
+                for w in range(1, min(count_traces(log), 6)):
+                    r['counterexample']['inputs'] = extract_inputs(log, w)
+                    ok, text = replay(run, o, r)
+                    if ok: break
             if not ok and o.retry_defines:
                 # the counterexample may rest on a contract that is weaker than the real environment: look for one under the tight contract
                 for dfn in o.retry_defines:
